@@ -1,6 +1,7 @@
 package main
 
 import (
+	"sort"
 	"fmt"
 	"go/token"
 	"go/types"
@@ -111,7 +112,7 @@ func ruleW1(p *Prog, r *Report) {
 func rulesAllowedSet(p *Prog, r *Report) {
 	r.Rule("S1", "sufficient", 1, "each allowed entry becomes a node independently of the others: the node stored at position i is parse(list[i]) and nothing else is carried around the loop")
 	r.Rule("S3", "sufficient", 1, "between construction and use the allowed-node slice is only permuted or compacted in place (sort.Slice, copying an element of the slice over another element of the same slice), and the compaction skips an element only when its canonical text equals its neighbour's")
-	qz := &quantizer{p: p, elemVar: map[ssa.Value]string{}}
+	qz := &quantizer{p: p, elemVar: map[ssa.Value]string{}, stop: map[string]bool{"parse": true}}
 	s2n := p.Func(p.ExpPkg, "stringsToNodes")
 	sat := p.Func(p.ExpPkg, "Satisfies")
 	if s2n == nil || sat == nil {
@@ -154,47 +155,28 @@ func rulesAllowedSet(p *Prog, r *Report) {
 			r.OK("S1", "stringsToNodes", p.pos(s2n.Pos()), "nodes[i] = parse(list[i])", "", true)
 		}
 	}
-	// S3: callees that receive the allowed nodes in Satisfies
-	{
-		var nodesVal ssa.Value
-		for _, b := range sat.Blocks {
-			for _, in := range b.Instrs {
-				if ex, ok := in.(*ssa.Extract); ok && ex.Index == 0 {
-					if c, ok := ex.Tuple.(*ssa.Call); ok && c.Call.StaticCallee() == s2n {
-						nodesVal = ex
-					}
-				}
-			}
+	// S3: every function the allowed-node slice flows through, from its construction to its last use
+	fl := allowedFlow(p, s2n)
+	if len(fl.start) == 0 {
+		r.Unknown("S3", "Satisfies|allowed nodes", p.pos(sat.Pos()), "kind=undecided: no call of stringsToNodes whose result is used was found")
+		return
+	}
+	var bad []string
+	var writers []string
+	for _, f := range fl.fnList() {
+		if !fl.writes[f] {
+			continue
 		}
-		if nodesVal == nil {
-			r.Unknown("S3", "Satisfies|allowed nodes", p.pos(sat.Pos()), "kind=undecided: the allowed-node slice is not the direct result of stringsToNodes")
-		} else {
-			var bad []string
-			n := 0
-			for _, ref := range *nodesVal.Referrers() {
-				c, ok := ref.(*ssa.Call)
-				if !ok {
-					if _, isDbg := ref.(*ssa.DebugRef); !isDbg {
-						bad = append(bad, fmt.Sprintf("used by %T at %s", ref, p.pos(ref.Pos())))
-					}
-					continue
-				}
-				callee := c.Call.StaticCallee()
-				if callee == nil || !p.InModule(callee) {
-					bad = append(bad, "passed to "+c.Call.Value.Name())
-					continue
-				}
-				n++
-				if msg := onlyPermutes(p, callee, map[*ssa.Function]bool{}); msg != "" {
-					bad = append(bad, callee.Name()+": "+msg)
-				}
-			}
-			if len(bad) > 0 {
-				r.Bad("S3", "Satisfies|allowed nodes", p.pos(sat.Pos()), strings.Join(bad, "; "))
-			} else {
-				r.OK("S3", "Satisfies|allowed nodes", p.pos(sat.Pos()), "only permuted/compacted or read", fmt.Sprintf("%d callees", n), true)
-			}
+		writers = append(writers, f.Name())
+		if msg := onlyPermutes(p, f, map[*ssa.Function]bool{}); msg != "" {
+			bad = append(bad, f.Name()+": "+msg)
 		}
+	}
+	bad = append(bad, fl.escapes...)
+	if len(bad) > 0 {
+		r.Bad("S3", "Satisfies|allowed nodes", p.pos(sat.Pos()), strings.Join(bad, "; "))
+	} else {
+		r.OK("S3", "Satisfies|allowed nodes", p.pos(sat.Pos()), "only permuted/compacted or read", fmt.Sprintf("flows through %d functions, written by %v", len(fl.fns), writers), true)
 	}
 }
 
@@ -244,44 +226,25 @@ func rulesC07(p *Prog, r *Report) {
 			r.OK("S2", "Satisfies|atoms", p.pos(sat.Pos()), "no test on the list as a whole", "", true)
 		}
 	}
-	// S2: uses of the slices
+	// S2: how the functions that only read the allowed nodes look at them
 	{
+		fl := allowedFlow(p, s2n)
 		var bad []string
-		for _, ref := range *isc.Params[1].Referrers() {
-			switch t := ref.(type) {
-			case *ssa.Call:
-				if bi, ok := t.Call.Value.(*ssa.Builtin); ok && bi.Name() == "len" {
-					// only as the range bound
-					for _, rr := range *t.Referrers() {
-						if bo, ok := rr.(*ssa.BinOp); !ok || bo.Op != token.LSS {
-							bad = append(bad, "len(allowed) used at "+p.pos(rr.Pos()))
-						}
-					}
-					continue
-				}
-				if c := t.Call.StaticCallee(); c != nil {
-					base := c.Name()
-					if o := c.Origin(); o != nil {
-						base = o.Name()
-					}
-					if base == "ContainsFunc" || base == "IndexFunc" || base == "Contains" {
-						continue // a stateless search over the whole slice
-					}
-				}
-				bad = append(bad, "allowed passed to "+t.Call.Value.Name())
-			case *ssa.IndexAddr:
-				if isRangeIndexOf(t.Index, isc.Params[1]) != nil {
-					bad = append(bad, "allowed indexed by position at "+p.pos(t.Pos()))
-				}
-			case *ssa.DebugRef:
-			default:
-				bad = append(bad, fmt.Sprintf("allowed used by %T at %s", ref, p.pos(ref.Pos())))
+		nr := 0
+		for _, f := range fl.fnList() {
+			if fl.writes[f] {
+				continue // a permuting function: S3's business
 			}
+			nr++
+			bad = append(bad, fl.readProblems[f]...)
+		}
+		if nr == 0 {
+			bad = append(bad, "no function reads the allowed nodes")
 		}
 		if len(bad) > 0 {
 			r.Bad("S2", "isCompatible|uses of allowed", p.pos(isc.Pos()), strings.Join(bad, "; "))
 		} else {
-			r.OK("S2", "isCompatible|uses of allowed", p.pos(isc.Pos()), "ranged only", "", true)
+			r.OK("S2", "isCompatible|uses of allowed", p.pos(isc.Pos()), "ranged only", fmt.Sprintf("%d reading functions", nr), true)
 		}
 	}
 	// S4
@@ -302,6 +265,234 @@ func rulesC07(p *Prog, r *Report) {
 	// the clause "re-spelling a listed id in another letter case never changes the answer" is the
 	// case-canonicalisation chain of C09 applied to allowed entries (each entry goes through parse).
 	rulesC09(p, r)
+}
+
+// allowedFlow follows the slice built by stringsToNodes through the program: arguments into callees,
+// returns back to callers, re-slicing, phis, captured variables of closures. It records the functions
+// the slice reaches, which of them write its elements, how the others read it, and every use that lets
+// it escape the analysis.
+type sliceFlow struct {
+	p            *Prog
+	start        []ssa.Value
+	vals         map[ssa.Value]bool
+	fns          map[*ssa.Function]bool
+	writes       map[*ssa.Function]bool
+	readProblems map[*ssa.Function][]string
+	escapes      []string
+}
+
+func (fl *sliceFlow) fnList() []*ssa.Function {
+	var out []*ssa.Function
+	for f := range fl.fns {
+		out = append(out, f)
+	}
+	sort.Slice(out, func(i, j int) bool { return out[i].String() < out[j].String() })
+	return out
+}
+
+var flowCache = map[*Prog]*sliceFlow{}
+
+func allowedFlow(p *Prog, s2n *ssa.Function) *sliceFlow {
+	if fl, ok := flowCache[p]; ok {
+		return fl
+	}
+	fl := &sliceFlow{p: p, vals: map[ssa.Value]bool{}, fns: map[*ssa.Function]bool{}, writes: map[*ssa.Function]bool{}, readProblems: map[*ssa.Function][]string{}}
+	flowCache[p] = fl
+	var work []ssa.Value
+	add := func(v ssa.Value) {
+		if v != nil && !fl.vals[v] {
+			fl.vals[v] = true
+			work = append(work, v)
+		}
+	}
+	for _, f := range p.RList {
+		for _, b := range f.Blocks {
+			for _, in := range b.Instrs {
+				if ex, ok := in.(*ssa.Extract); ok && ex.Index == 0 {
+					if c, ok := ex.Tuple.(*ssa.Call); ok && c.Call.StaticCallee() == s2n {
+						fl.start = append(fl.start, ex)
+						add(ex)
+					}
+				}
+			}
+		}
+	}
+	resultsOf := func(f *ssa.Function, idx int) []ssa.Value {
+		var out []ssa.Value
+		n := p.CG.Nodes[f]
+		if n == nil {
+			return nil
+		}
+		for _, e := range n.In {
+			if e.Site == nil || !p.R[e.Caller.Func] {
+				continue
+			}
+			v, ok := e.Site.(ssa.Value)
+			if !ok {
+				continue
+			}
+			if f.Signature.Results().Len() == 1 {
+				out = append(out, v)
+				continue
+			}
+			for _, rr := range *v.Referrers() {
+				if ex, ok := rr.(*ssa.Extract); ok && ex.Index == idx {
+					out = append(out, ex)
+				}
+			}
+		}
+		return out
+	}
+	for len(work) > 0 {
+		v := work[len(work)-1]
+		work = work[:len(work)-1]
+		var fn *ssa.Function
+		switch t := v.(type) {
+		case *ssa.Parameter:
+			fn = t.Parent()
+		case *ssa.FreeVar:
+			fn = t.Parent()
+		case ssa.Instruction:
+			fn = t.Parent()
+		}
+		if fn != nil {
+			fl.fns[fn] = true
+		}
+		if v.Referrers() == nil {
+			continue
+		}
+		for _, ref := range *v.Referrers() {
+			switch t := ref.(type) {
+			case *ssa.DebugRef:
+			case *ssa.Phi:
+				add(t)
+			case *ssa.Slice:
+				add(t)
+				if t.Low != nil || t.High != nil {
+					// harmless where the function compacts the slice (a writer), a loss of entries in a reader
+					fl.readProblems[t.Parent()] = append(fl.readProblems[t.Parent()], "allowed re-sliced at "+p.pos(t.Pos())+": entries are cut off before they are looked at")
+				}
+			case *ssa.Return:
+				for i, res := range t.Results {
+					if res == v {
+						for _, rv := range resultsOf(t.Parent(), i) {
+							add(rv)
+						}
+					}
+				}
+			case *ssa.BinOp: // comparison with nil
+			case *ssa.IndexAddr:
+				if t.X != v {
+					break
+				}
+				written := false
+				for _, rr := range *t.Referrers() {
+					if st, ok := rr.(*ssa.Store); ok && st.Addr == ssa.Value(t) {
+						written = true
+					}
+				}
+				if written {
+					fl.writes[t.Parent()] = true
+				} else if isRangeIndexOf(t.Index, v) != nil {
+					fl.readProblems[t.Parent()] = append(fl.readProblems[t.Parent()], "allowed indexed by position at "+p.pos(t.Pos()))
+				}
+			case *ssa.MakeClosure:
+				for i, bnd := range t.Bindings {
+					if bnd == v {
+						add(t.Fn.(*ssa.Function).FreeVars[i])
+					}
+				}
+			case *ssa.Store:
+				// spilled to a local variable (captured by reference): follow the loads
+				if al, ok := t.Addr.(*ssa.Alloc); ok && t.Val == v {
+					for _, rr := range *al.Referrers() {
+						if ld, ok := rr.(*ssa.UnOp); ok && ld.Op == token.MUL {
+							add(ld)
+						}
+						if mc, ok := rr.(*ssa.MakeClosure); ok {
+							for i, bnd := range mc.Bindings {
+								if bnd == ssa.Value(al) {
+									fv := mc.Fn.(*ssa.Function).FreeVars[i]
+									for _, r3 := range *fv.Referrers() {
+										if ld, ok := r3.(*ssa.UnOp); ok && ld.Op == token.MUL {
+											add(ld)
+										}
+									}
+								}
+							}
+						}
+					}
+					break
+				}
+				fl.escapes = append(fl.escapes, fmt.Sprintf("%s: the allowed nodes are stored into %s", p.pos(t.Pos()), describe(t.Addr)))
+			case *ssa.Call:
+				if bi, ok := t.Call.Value.(*ssa.Builtin); ok {
+					switch bi.Name() {
+					case "len":
+						if !fl.writes[t.Parent()] {
+							for _, rr := range *t.Referrers() {
+								if bo, ok := rr.(*ssa.BinOp); !ok || bo.Op != token.LSS {
+									if _, isDbg := rr.(*ssa.DebugRef); !isDbg {
+										fl.readProblems[t.Parent()] = append(fl.readProblems[t.Parent()], "len(allowed) used at "+p.pos(rr.Pos()))
+									}
+								}
+							}
+						}
+					case "cap":
+					default:
+						fl.escapes = append(fl.escapes, fmt.Sprintf("%s: %s applied to the allowed nodes", p.pos(t.Pos()), bi.Name()))
+					}
+					break
+				}
+				callee := t.Call.StaticCallee()
+				if callee == nil {
+					fl.escapes = append(fl.escapes, fmt.Sprintf("%s: the allowed nodes are passed to a dynamic call", p.pos(t.Pos())))
+					break
+				}
+				if p.InModule(callee) {
+					for i, a := range t.Call.Args {
+						if a == v && i < len(callee.Params) {
+							add(callee.Params[i])
+						}
+					}
+					break
+				}
+				base := callee.Name()
+				if o := callee.Origin(); o != nil {
+					base = o.Name()
+				}
+				switch {
+				case base == "ContainsFunc" || base == "IndexFunc" || base == "Contains":
+					// a stateless search over the whole slice
+				case callee.String() == "sort.Slice" || callee.String() == "sort.SliceStable":
+					fl.writes[t.Parent()] = true
+				default:
+					if si := classifyStd(callee); si.Class == stdMutatesArg {
+						fl.writes[t.Parent()] = true // onlyPermutes names it
+					} else {
+						fl.escapes = append(fl.escapes, fmt.Sprintf("%s: the allowed nodes are passed to %s", p.pos(t.Pos()), callee))
+					}
+				}
+			case *ssa.MakeInterface:
+				// sort.Slice(x any, …): follow to the call
+				add(t)
+			default:
+				fl.escapes = append(fl.escapes, fmt.Sprintf("%s: the allowed nodes are used by %T", p.pos(ref.Pos()), ref))
+			}
+		}
+	}
+	// len() uses were classified before all writers were known: drop read problems of writers
+	for f := range fl.writes {
+		delete(fl.readProblems, f)
+	}
+	// the comparator closure of a sorting function reads by position on behalf of the sort
+	for f := range fl.fns {
+		if f.Parent() != nil && fl.writes[f.Parent()] {
+			delete(fl.readProblems, f)
+			fl.writes[f] = true
+		}
+	}
+	return fl
 }
 
 // onlyPermutes: fn (and its in-module callees) writes elements of node slices only through sort.Slice
